@@ -1,6 +1,7 @@
 import OdcGeo.Model.C10
 import OdcGeo.Model.C10Nd
 import OdcGeo.Model.C10Sig
+import OdcGeo.Model.C10Rs
 import OdcGeo.Drv.C03
 namespace OdcGeo.C10.Drv
 open OdcGeo OdcGeo.IO OdcGeo.C17 OdcGeo.C03 OdcGeo.C10
@@ -37,6 +38,20 @@ def parsePixT? (t : String) : Option PixT :=
 def run (args : List String) : Option String :=
   match args with
   | ["sig", fn] => pure ((signature fn).elim "unknown" fmtSig)
+  | ["s2rio", name] => pure (fmtRes toString (resamplingS2Rio name))
+  | ["isnn", kind, v] => do
+    let a ← (if kind = "str" then some (RsArg.str v) else (parseInt? v).map RsArg.code)
+    pure (fmtBool (isResamplingNN a))
+  | ["riocall", st, dt, isf, nan, gcp, kind, v, hx, hy, sn, dn] => do
+    let st ← parsePixT? st; let dt ← parsePixT? dt; let isf ← parseBool? isf; let nan ← parseInt? nan
+    let gcp ← parseBool? gcp
+    let a ← (if kind = "str" then some (RsArg.str v) else (parseInt? v).map RsArg.code)
+    let hx ← parseBool? hx; let hy ← parseBool? hy
+    let sn ← parseOpt? parseInt? sn; let dn ← parseOpt? parseInt? dn
+    let w : WorkT → String := fun | .same => "same" | .int16 => "int16" | .uint8 => "uint8"
+    pure (fmtRes (fun (c : RioCall) =>
+      s!"rs={c.resampling} tr={fmtBool c.srcTransform} gcps={fmtBool c.gcps} inj={fmtBool c.scaleInjected} sn={fmtOpt fmtInt c.srcNodata} dn={fmtOpt fmtInt c.dstNodata} src={w c.srcWork} dst={w c.dstWork}")
+      (rioCall st dt isf nan gcp a hx hy sn dn))
   | ["ndwarp", t, isf, nan, ydim, sshape, dshape, a, sn, dn, init, sflat, dflat] => do
     -- rio_reproject on N-d arrays (flat C-order data)
     let t ← parsePixT? t; let isf ← parseBool? isf; let nan ← parseInt? nan
